@@ -242,7 +242,7 @@ def rule_lock(prog: Program) -> List[Instance]:
                             f"returns a lock that is not taken from the process-wide registry: {bad}" if bad else "every return hands out the registered lock (get/setdefault on the module registry)", fi.where()))
         # a fresh Lock stored with a plain subscript assignment is a non-atomic check-then-insert
         for n in walk_own(fi.node):
-            if isinstance(n, ast.Assign) and isinstance(n.targets[0], ast.Subscript):
+            if isinstance(n, ast.Assign) and any(isinstance(t, ast.Subscript) for t in n.targets):
                 val_names = names_in(n.value)
                 fresh = any(isinstance(x, ast.Call) and call_name(x).endswith("Lock") for x in ast.walk(n.value))
                 if not fresh:
